@@ -30,16 +30,30 @@ impl de::Error for NoAllocError {
     }
 }
 
-/// Accepts primitives and strings, stores nothing.
-pub struct SimSer {
+/// Accepts primitives and strings, stores nothing. With a sink attached, every value it is given
+/// counts as one write of that sink (which may fail or panic there, as injected).
+pub struct SimSer<'s> {
     pub human: bool,
+    pub sink: Option<&'s mut crate::sink::FaultySink>,
+}
+
+impl SimSer<'static> {
+    pub fn plain(human: bool) -> Self {
+        SimSer { human, sink: None }
+    }
 }
 
 macro_rules! prim {
-    ($($m:ident: $t:ty),*) => { $(fn $m(self, _v: $t) -> Result<(), NoAllocError> { Ok(()) })* };
+    ($($m:ident: $t:ty),*) => { $(fn $m(self, _v: $t) -> Result<(), NoAllocError> {
+        use std::fmt::Write as _;
+        match self.sink {
+            Some(s) => s.write_str("").map_err(|_| NoAllocError),
+            None => Ok(()),
+        }
+    })* };
 }
 
-impl Serializer for SimSer {
+impl<'s> Serializer for SimSer<'s> {
     type Ok = ();
     type Error = NoAllocError;
     type SerializeSeq = Impossible<(), NoAllocError>;
@@ -51,7 +65,14 @@ impl Serializer for SimSer {
     type SerializeStructVariant = Impossible<(), NoAllocError>;
     prim!(serialize_bool: bool, serialize_i8: i8, serialize_i16: i16, serialize_i32: i32, serialize_i64: i64,
           serialize_u8: u8, serialize_u16: u16, serialize_u32: u32, serialize_u64: u64, serialize_f32: f32,
-          serialize_f64: f64, serialize_char: char, serialize_str: &str, serialize_bytes: &[u8]);
+          serialize_f64: f64, serialize_char: char, serialize_bytes: &[u8]);
+    fn serialize_str(self, v: &str) -> Result<(), NoAllocError> {
+        use std::fmt::Write as _;
+        match self.sink {
+            Some(s) => s.write_str(v).map_err(|_| NoAllocError),
+            None => Ok(()),
+        }
+    }
     fn serialize_none(self) -> Result<(), NoAllocError> {
         Ok(())
     }
@@ -125,7 +146,7 @@ pub fn exercise(ty: u64, human: bool) {
     macro_rules! go {
         ($t:ty, $v:expr) => {{
             let v: $t = $v;
-            let _ = std::hint::black_box(v.serialize(SimSer { human }));
+            let _ = std::hint::black_box(v.serialize(SimSer::plain(human)));
             let d: de::value::StrDeserializer<'_, NoAllocError> = TEXTS[ty as usize].into_deserializer();
             let _ = std::hint::black_box(<$t>::deserialize(d).is_ok());
         }};
@@ -137,5 +158,106 @@ pub fn exercise(ty: u64, human: bool) {
         3 => go!(IntervalYM, IntervalYM::try_from_months(147).unwrap()),
         4 => go!(IntervalDT, IntervalDT::try_from_usecs(1_343_655_123_456).unwrap()),
         _ => go!(OracleDate, OracleDate::try_from_usecs(1_709_212_455_000_000).unwrap()),
+    }
+}
+
+// ---------------------------------------------------------------------------
+// A value handed to the crate's visitors by "some serde data format": one primitive,
+// delivered through whatever `deserialize_*` method the crate calls, by a
+// deserializer that never allocates and says whether it is human-readable.
+// ---------------------------------------------------------------------------
+
+#[derive(Clone, Copy, Debug)]
+pub enum Prim<'a> {
+    I64(i64),
+    U64(u64),
+    I32(i32),
+    U32(u32),
+    I128(i128),
+    U128(u128),
+    F64(f64),
+    F32(f32),
+    Bool(bool),
+    Str(&'a str),
+    Bytes(&'a [u8]),
+    Unit,
+}
+
+pub const PRIM_KINDS: [&str; 12] = ["i64", "u64", "i32", "u32", "i128", "u128", "f64", "f32", "bool", "str", "bytes", "unit"];
+
+pub fn make_prim<'a>(kind: &str, raw: i64, f_bits: u64, text: &'a str) -> Prim<'a> {
+    match kind {
+        "i64" => Prim::I64(raw),
+        "u64" => Prim::U64(raw as u64),
+        "i32" => Prim::I32(raw as i32),
+        "u32" => Prim::U32(raw as u32),
+        "i128" => Prim::I128((raw as i128) << (f_bits % 65)),
+        "u128" => Prim::U128((raw as u64 as u128) << (f_bits % 65)),
+        "f64" => Prim::F64(f64::from_bits(f_bits)),
+        "f32" => Prim::F32(f32::from_bits(f_bits as u32)),
+        "bool" => Prim::Bool(raw & 1 == 1),
+        "bytes" => Prim::Bytes(text.as_bytes()),
+        "unit" => Prim::Unit,
+        _ => Prim::Str(text),
+    }
+}
+
+pub struct PrimDe<'a> {
+    pub prim: Prim<'a>,
+    pub human: bool,
+}
+
+impl<'de, 'a> de::Deserializer<'de> for PrimDe<'a> {
+    type Error = NoAllocError;
+    fn deserialize_any<V: de::Visitor<'de>>(self, v: V) -> Result<V::Value, NoAllocError> {
+        match self.prim {
+            Prim::I64(x) => v.visit_i64(x),
+            Prim::U64(x) => v.visit_u64(x),
+            Prim::I32(x) => v.visit_i32(x),
+            Prim::U32(x) => v.visit_u32(x),
+            Prim::I128(x) => v.visit_i128(x),
+            Prim::U128(x) => v.visit_u128(x),
+            Prim::F64(x) => v.visit_f64(x),
+            Prim::F32(x) => v.visit_f32(x),
+            Prim::Bool(x) => v.visit_bool(x),
+            Prim::Str(x) => v.visit_str(x),
+            Prim::Bytes(x) => v.visit_bytes(x),
+            Prim::Unit => v.visit_unit(),
+        }
+    }
+    serde::forward_to_deserialize_any! {
+        bool i8 i16 i32 i64 i128 u8 u16 u32 u64 u128 f32 f64 char str string bytes byte_buf option unit
+        unit_struct newtype_struct seq tuple tuple_struct map struct enum identifier ignored_any
+    }
+    fn is_human_readable(&self) -> bool {
+        self.human
+    }
+}
+
+/// Serializes the value with raw count `raw` (if it is one) through the non-allocating
+/// serializer, then hands `prim` to the type's `Deserialize`. Returns an outcome class.
+pub fn serde_call(ty: u64, raw: i64, prim: Prim<'_>, human: bool, sink: &mut crate::sink::FaultySink) -> &'static str {
+    macro_rules! go {
+        ($t:ty, $mk:expr) => {{
+            if let Ok(v) = $mk {
+                let v: $t = v;
+                let _ = std::hint::black_box(v.serialize(SimSer { human, sink: Some(&mut *sink) }).is_ok());
+            }
+            match <$t>::deserialize(PrimDe { prim, human }) {
+                Ok(v) => {
+                    std::hint::black_box(v);
+                    "ok"
+                }
+                Err(_) => "de::Error",
+            }
+        }};
+    }
+    match ty {
+        0 => go!(Date, Date::try_from_days(raw as i32)),
+        1 => go!(Timestamp, Timestamp::try_from_usecs(raw)),
+        2 => go!(Time, Time::try_from_usecs(raw)),
+        3 => go!(IntervalYM, IntervalYM::try_from_months(raw as i32)),
+        4 => go!(IntervalDT, IntervalDT::try_from_usecs(raw)),
+        _ => go!(OracleDate, OracleDate::try_from_usecs(raw)),
     }
 }
